@@ -210,11 +210,9 @@ fn gen_program<const V: u32>(d: &mut Driver<V>, p: &Params, pi: u64, nops: u64) 
         }
         _ => d.gc(0, true),
     }
-    let mut tmp_bound = false;
     for _ in 0..nops {
         safepoint();
-        let writers: Vec<usize> = if tmp_bound { (0..nmut).chain([TMP_MUT]).collect() } else { (0..nmut).collect() };
-        let wm = *d.rng.pick(&writers); // the mutator whose barrier / buffers are used
+        let wm = d.rng.below(nmut as u64) as usize; // the mutator whose barrier / buffers are used
         let am = d.rng.below(nmut as u64) as usize; // the mutator that allocates and owns temporaries
         let hi = d.rng.below(holders.len() as u64) as usize;
         let c = d.rng.below(100);
@@ -328,22 +326,34 @@ fn gen_program<const V: u32>(d: &mut Driver<V>, p: &Params, pi: u64, nops: u64) 
         } else if c < 89 {
             d.gc(am, true);
         } else if c < 95 {
-            // a mutator that comes and goes: its modbuf is flushed by destroy_mutator
-            if tmp_bound {
-                destroy::<V>(TMP_MUT);
-                tmp_bound = false;
-            } else {
-                bind::<V>(TMP_MUT);
-                tmp_bound = true;
+            // a mutator that comes and goes: it stores young objects into (old) holders and is
+            // destroyed while its modbuf / region modbuf are not empty (destroy_mutator flushes them)
+            bind::<V>(TMP_MUT);
+            let n = d.rng.range(1, 3);
+            for _ in 0..n {
+                let hj = d.rng.below(holders.len() as u64) as usize;
+                let ysz = HDR_BYTES + 8 + 8 * d.rng.below(12) as usize;
+                let y = gen_alloc::<V>(d, am, TMP, 0, ysz, 1);
+                if y == 0 {
+                    break;
+                }
+                let h = holder_ref::<V>(&holders[hj]);
+                let k = d.rng.below(holders[hj].nf as u64) as usize;
+                gen_write::<V>(d, TMP_MUT, h, k, y);
+                d.set_root(am, TMP, 0);
             }
+            if d.rng.chance(1, 2) && holders.len() >= 2 {
+                let (si, di) = (hi, (hi + 1) % holders.len());
+                let n = holders[si].nf.min(holders[di].nf).min(3);
+                let (src, dst) = (holder_ref::<V>(&holders[si]), holder_ref::<V>(&holders[di]));
+                region_copy::<V>(d, TMP_MUT, src, 0, dst, 0, n);
+            }
+            destroy::<V>(TMP_MUT);
         } else {
             // replace a holder by a fresh (young) one
             safepoint();
             alloc_holder::<V>(d, p, &mut holders[hi]);
         }
-    }
-    if tmp_bound {
-        destroy::<V>(TMP_MUT);
     }
     d.gc(0, false);
     fill_until_gc::<V>(d, 0);
